@@ -1325,6 +1325,13 @@ class Exec:
         return self.new_buf(st, z) if isinstance(o, VBuf) else VBytes(z)
 
     def index(self, o, i, st, n):
+        if isinstance(o, VObj):
+            res = []
+            for s2, m in self.getattr(o, '__getitem__', st, {'mod': 'pgpy'}, n):
+                if isinstance(m, Raise):
+                    raise ToolLimit('subscript on %s' % o.cls)
+                res += self.call(m, [i], {}, s2, {'mod': 'pgpy'}, n, None)
+            return res
         if isinstance(o, (VTuple, VList)):
             c = i.conc()
             if c is None:
